@@ -78,6 +78,42 @@ RefParse(s) == LET e == HeadEnd(s) IN IF e = 0 THEN NeedMore ELSE Verdict(SubSeq
 Conts == { <<>>, <<"a", "a">>, <<"C", "L", "C", "L">>, <<"L", "L">>, <<"L">>, <<"C", "L">>,
            <<"R", "C", "L", "C", "L">>, <<":", "a", "C">>, <<"a", ":", "a", "C", "L", "C", "L">> }
 
+\* ---- structured request heads: validity decided by the request target / Host value, and a
+\* body announced or not.  The verdict is again a function of the head alone: a head with an
+\* invalid target or Host is rejected whatever follows it -- nothing, a part of the announced
+\* body or the whole body -- and the rejection is due as soon as the head is complete.
+STargets == {"origin", "absolute", "absolute-badhost"}
+SHosts == {"ok", "unclosed-bracket", "space", "bad-escape"}
+SAnnounces == {"none", "cl", "chunked"}
+SHeads == [target : STargets, host : SHosts, announce : SAnnounces]
+\* (with an absolute-form target the Host field is not what identifies the target -- RFC 9112
+\* 3.2.2 has it ignored, 3.2 has an invalid value rejected: the reference leaves that case open)
+SVerdict(x) == IF x.target = "absolute-badhost" THEN "reject"
+               ELSE IF x.host = "ok" THEN "accept"
+               ELSE IF x.target = "origin" THEN "reject" ELSE "any"
+BodyConts == {"nothing", "partial", "whole"}
+\* what the reference answers for head x followed by continuation c, and whether it may wait
+SAnswer(x, c) == IF SVerdict(x) = "reject" THEN [v |-> "reject", mayWait |-> FALSE]
+                 ELSE [v |-> SVerdict(x), mayWait |-> x.announce # "none" /\ c # "whole"]
+SContinuationIndependent ==
+  \A x \in SHeads : \A c1, c2 \in BodyConts :
+     /\ SAnswer(x, c1).v = SAnswer(x, c2).v
+     /\ SVerdict(x) = "reject" => ~SAnswer(x, c1).mayWait
+
+\* ---- whole responses: interim (1xx other than 101) heads are skipped, the first final head is
+\* THE response.  "101 Switching Protocols" is final whatever its Connection field says: the
+\* bytes after its blank line belong to another protocol and are never parsed as a head.  The
+\* status returned and the bytes consumed are functions of the heads up to the final one; the
+\* continuation (nothing, a further response, garbage, half a head) changes neither, and the
+\* reader never waits for it.
+RInterim == {"100", "103"}
+RFinal == { <<"101", "none">>, <<"101", "upgrade">>, <<"101", "keep-alive">>,
+            <<"200", "none">>, <<"200", "keep-alive">>, <<"204", "none">> }
+RSeqs == { [pre |-> p, fin |-> f] : p \in SeqsUpTo(RInterim, 2), f \in RFinal }
+RConts == {"nothing", "response", "garbage", "partial-head"}
+RResult(x, c) == [status |-> x.fin[1], heads |-> Len(x.pre) + 1, waits |-> FALSE]
+RContinuationIndependent == \A x \in RSeqs : \A c1, c2 \in RConts : RResult(x, c1) = RResult(x, c2)
+
 CONSTANT Heads
 VARIABLE h
 Init == h \in Heads
